@@ -167,8 +167,13 @@ func (g *Gen) mutate(orig []byte) []byte {
 		case 14: // value bytes to extremes
 			if len(locs) > 0 {
 				l := locs[g.intn(len(locs))]
+				fill := pick(g.rng, -1, 0x00, 0x00, 0xff)
 				for k := 0; k < l.vlen; k++ {
-					b[l.off+4+k] = byte(pick(g.rng, 0x00, 0xff))
+					if fill >= 0 {
+						b[l.off+4+k] = byte(fill) // the whole value at an extreme
+					} else {
+						b[l.off+4+k] = byte(pick(g.rng, 0x00, 0xff))
+					}
 				}
 			}
 		case 15: // sequence number
